@@ -1162,6 +1162,210 @@ def run (typed : Bool) : SeqOfSt → List SeqOfOp → SeqOfSt × List Out
 
 end SeqOf
 
+namespace DictSpec
+
+/-- a Python dict over the declared keys (in declaration order), created lazily: no dict at all
+    (after `reset()`), `{}` (fresh, after `clear()`), or every declared key present with a value or
+    `None` — `some []`, resp. a list of length N -/
+abbrev St := Option (List (Option Int))
+
+def dflt : FK → Option Int
+  | .dflt d => some d
+  | _ => none
+
+/-- the slots, allocated on first use -/
+def alloc (fields : List FK) (s : St) : List (Option Int) :=
+  if (s.getD []).isEmpty then List.replicate fields.length none else s.getD []
+
+def cur (fields : List FK) (s : St) (i : Int) : Option Int :=
+  match pyIdx fields.length i with
+  | some k => ((s.getD [])[k]?).bind id
+  | none => none
+
+def readComp : Option Int → Comp
+  | some z => .val z
+  | none => .hole
+
+/-- `d[key] = v` (a `None` argument: "store the component type", which for a DEFAULT key is its value) -/
+def setAt (fields : List FK) (s : St) (i : Int) (a : Option Arg) : Option St :=
+  match pyIdx fields.length i with
+  | none => none
+  | some k =>
+    match a, fields[k]? with
+    | _, none => none
+    | none, some fk => some (some ((alloc fields s).set k (dflt fk)))
+    | some (.py z), _ => some (some ((alloc fields s).set k (some z)))
+    | some (.obj z), _ => some (some ((alloc fields s).set k (some z)))
+    | some .bad, _ => none
+
+/-- reading a key; with `instantiate` an unset key is touched: the slots are allocated and a
+    DEFAULT key receives its default -/
+def getAt (fields : List FK) (s : St) (i : Int) (inst : Bool) : St × Out :=
+  match cur fields s i with
+  | some z => (s, .comp (.val z))
+  | none =>
+    if !inst then (s, .comp .hole)
+    else match pyIdx fields.length i with
+      | none => (s, .libErr)
+      | some k =>
+        match fields[k]? with
+        | none => (s, .libErr)
+        | some fk =>
+          (some ((alloc fields s).set k (dflt fk)),
+           .comp (match dflt fk with | some d => .val d | none => .ph))
+
+def getMany (fields : List FK) : St → List Nat → St × Option (List Comp)
+  | s, [] => (s, some [])
+  | s, k :: ks =>
+    match getAt fields s (k : Int) true with
+    | (s', .comp c) =>
+      (match getMany fields s' ks with
+       | (s'', some cs) => (s'', some (c :: cs))
+       | (s'', none) => (s'', none))
+    | (s', _) => (s', none)
+
+def posOfName (fields : List FK) (k : Nat) : Option Int := if k < fields.length then some (k : Int) else none
+
+def reqSet (fields : List FK) (l : List (Option Int)) : Bool :=
+  (List.range fields.length).all fun k =>
+    match fields[k]? with
+    | some .req => (match l[k]? with | some (some _) => true | _ => false)
+    | _ => true
+
+def isValue (fields : List FK) (s : St) : Bool :=
+  match s with
+  | none => false
+  | some l => reqSet fields l
+
+def setOut (fields : List FK) (s : St) (i : Option Int) (a : Option Arg) (err : Out) : St × Out :=
+  match i with
+  | none => (s, err)
+  | some i => match setAt fields s i a with
+    | some s' => (s', .unit)
+    | none => (s, err)
+
+def step (fields : List FK) (s : St) : RecOp → St × Out
+  | .setItemPos i a => setOut fields s (some i) (some a) .lookupErr
+  | .setItemName k a => setOut fields s (posOfName fields k) (some a) .lookupErr
+  | .setPos i a => setOut fields s (some i) (some a) .libErr
+  | .setName k a => setOut fields s (posOfName fields k) (some a) .libErr
+  | .setType k a => setOut fields s (posOfName fields k) (some a) .libErr
+  | .setNone i => setOut fields s (some i) none .libErr
+  | .clear => (some [], .unit)
+  | .reset => (none, .unit)
+  | .clone flag => if flag then (s, .unit) else (some [], .unit)
+  | .len => (match s with | none => (s, .libErr) | some l => (s, .nat l.length))
+  | .keys => (s, .names (List.range fields.length))
+  | .contains k => (s, .bool (k < fields.length))
+  | .getItemPos i => let r := getAt fields s i true; (r.1, r.2.asLookup)
+  | .getItemName k =>
+    (match posOfName fields k with
+     | none => (s, .lookupErr)
+     | some i => let r := getAt fields s i true; (r.1, r.2.asLookup))
+  | .getPos i inst => getAt fields s i inst
+  | .getName k inst =>
+    (match posOfName fields k with
+     | none => (s, .libErr)
+     | some i => getAt fields s i inst)
+  | .getType k inst =>
+    (match posOfName fields k with
+     | none => (s, .libErr)
+     | some i => getAt fields s i inst)
+  | .values =>
+    (match getMany fields s (List.range fields.length) with
+     | (s', some cs) => (s', .comps cs)
+     | (s', none) => (s', .lookupErr))
+  | .items =>
+    (match getMany fields s (List.range fields.length) with
+     | (s', some cs) => (s', .items (enumFrom 0 cs))
+     | (s', none) => (s', .lookupErr))
+  | .pretty =>
+    (match s with
+     | none => (s, .libErr)
+     | some l => (s, .items ((enumFrom 0 (l.map readComp)).filter (fun kv => kv.2.isVal))))
+  | .eqTo cs =>
+    (match s with
+     | none => (s, .libErr)
+     | some l => (s, .bool (cs.map Comp.get? == l)))
+  | .encode _ =>
+    -- encoding an incomplete record touches a missing mandatory component: the slots get allocated
+    (match s with
+     | some l => if reqSet fields l then (s, .unit) else (some (alloc fields s), .unit)
+     | none => if reqSet fields [] then (s, .unit) else (some (alloc fields s), .unit))
+
+def absField : FK → Option Int → Option Val
+  | .req, some z => some (.int z)
+  | .req, none => none
+  | .opt, some z => some (.int z)
+  | .opt, none => some .absent
+  | .dflt _, some z => some (.int z)
+  | .dflt d, none => some (.int d)
+
+def absFields : List FK → List (Option Int) → Option (List Val)
+  | [], _ => some []
+  | fk :: fks, l =>
+    match absField fk (l.headD none), absFields fks l.tail with
+    | some v, some vs => some (v :: vs)
+    | _, _ => none
+
+def abs (fields : List FK) (s : St) : Option Val :=
+  match s with
+  | none => none
+  | some l => (absFields fields l).map .seq
+
+/-- ill-formed: unknown name, position outside the declared range, a value the field refuses -/
+def illFormed (fields : List FK) : RecOp → Bool
+  | .setItemPos i a | .setPos i a => (pyIdx fields.length i).isNone || a == .bad
+  | .setItemName k a | .setName k a | .setType k a => decide (fields.length ≤ k) || a == .bad
+  | .setNone i => (pyIdx fields.length i).isNone
+  | .getItemPos i | .getPos i true => (pyIdx fields.length i).isNone
+  | .getItemName k | .getName k _ | .getType k _ => decide (fields.length ≤ k)
+  | _ => false
+
+/-- accessors that never change the dict: everything that does not instantiate, and instantiating
+    accessors on a key that holds a value -/
+def isReader (fields : List FK) (s : St) : RecOp → Bool
+  | .len | .keys | .contains _ | .pretty | .eqTo _ => true
+  | .getPos _ false | .getName _ false | .getType _ false => true
+  | .getItemPos i | .getPos i true => (cur fields s i).isSome
+  | .getItemName k | .getName k true | .getType k true =>
+    (match posOfName fields k with | some i => (cur fields s i).isSome | none => true)
+  | .encode _ => isValue fields s
+  | _ => false
+
+def run (fields : List FK) : St → List RecOp → St × List Out
+  | s, [] => (s, [])
+  | s, op :: ops =>
+    let r := step fields s op
+    let rest := run fields r.1 ops
+    (rest.1, r.2 :: rest.2)
+
+end DictSpec
+
+namespace Rec
+
+/-- the prototype state an object stands for: placeholder objects and the noValue sentinel both
+    read as "unset" -/
+def absD (st : RecSt) : DictSpec.St := st.comps.map (·.map Comp.get?)
+
+def run (fields : List FK) : RecSt → List RecOp → RecSt × List Out
+  | st, [] => (st, [])
+  | st, op :: ops =>
+    let r := step fields st op
+    let rest := run fields r.1 ops
+    (rest.1, r.2 :: rest.2)
+
+/-- shape invariant of the objects with declared fields: the component list is empty or padded to
+    the declared length with at least one component instantiated; a DEFAULT slot never holds a
+    placeholder; no dynamic names -/
+def Inv (fields : List FK) (st : RecSt) : Prop :=
+  st.dyn = 0 ∧
+  ∀ l, st.comps = some l →
+    (l = [] ∨ (l.length = fields.length ∧ l.all (·.isHole) = false)) ∧
+    ∀ (k : Nat) (d : Int), fields[k]? = some (FK.dflt d) → l[k]? ≠ some Comp.ph
+
+end Rec
+
 /-! ## the NoValue dunder table -/
 
 /-- operations a scalar class forwards to its payload; on a schema object the payload is the
